@@ -4,9 +4,12 @@
                9 finished row became unfinished   10 step bound exceeded
      disagree  1 mask emptiness differs  2 action outside the model mask  3 done differs  5 model reward differs
                7 model step = None  12 episode not finished  20 instance not well-formed
-               21 the model's own schedule is rejected by the specification (cannot happen: FFSP_valid) *)
+               21 the model's own schedule is rejected by the specification (cannot happen: FFSP_valid)
+     pre_step guard (check_prestep_guard):
+     concrete 16 env.pre_step returned although a row of the batch is past stage 0 (its own stage_idx says so)
+     disagree 32 env.pre_step raised although the model's guard lets the batch through *)
 From Coq Require Import ZArith List Bool Lia ZifyBool Arith.
-From RL4CO Require Import Base.FFSPLists Spec.FlowShop Env.FFSP Env.SMTWTP Env.SchedBatch2 Env.FFSPBound Harness.HC07_ffsp.
+From RL4CO Require Import Base.FFSPLists Spec.FlowShop Env.FFSP Env.SMTWTP Env.SchedBatch2 Env.FFSPBound Env.SchedGuards Harness.HC07_ffsp.
 Import ListNotations.
 Open Scope Z_scope.
 
@@ -116,6 +119,37 @@ Definition check_C03_smtwtp (c : SMTWTP.inst * list nat * Z) : Z :=
   end.
 Definition check_C04_smtwtp (c : HC07F.smtwtp_case) : Z := HC07F.smtwtp_corr c.
 
+(* ---------------------------------------------------------------- FFSP: env.pre_step on a (running) batch *)
+(* rows = (instance incl. the machine-table row, the actions the row has taken so far); raised = the real call raised *)
+Fixpoint pg_rows (rows : list (FFSP.inst * list nat)) : Z + list (FFSP.inst * FFSP.st) :=
+  match rows with
+  | [] => inr []
+  | (i, acts) :: r =>
+      if negb (FFSP.wfb i) then inl 20
+      else match ffsp_run_adm i 1 (FFSP.reset i) acts with
+           | inl code => inl code
+           | inr s => match pg_rows r with inl c => inl c | inr l => inr ((i, s) :: l) end
+           end
+  end.
+Definition check_prestep_guard (c : list (FFSP.inst * list nat) * bool) : Z :=
+  match c with (rows, raised) =>
+    match pg_rows rows with
+    | inl code => code
+    | inr ms => match b_pre_step ms, raised with
+                | None, true => 0
+                | Some _, false => 0
+                | None, false => 16
+                | Some _, true => 32
+                end
+    end
+  end.
+
+Example prestep_guard_selftest :
+  check_prestep_guard ([(FFSP.ex_i, []); (FFSP.ex_i, [1; 0; 2]%nat)], true) = 0 /\
+  check_prestep_guard ([(FFSP.ex_i, []); (FFSP.ex_i, [1; 0; 2]%nat)], false) = 16 /\
+  check_prestep_guard ([(FFSP.ex_i, []); (FFSP.ex_i, [])], false) = 0 /\
+  check_prestep_guard ([(FFSP.ex_i, []); (FFSP.ex_i, [])], true) = 32.
+Proof. vm_compute. repeat split; reflexivity. Qed.
 Example c03_ffsp_selftest : check_C03_ffsp (FFSP.ex_i, FFSP.ex_acts, -6) = 0 /\ check_C03_ffsp (FFSP.ex_i, FFSP.ex_acts, -7) = 4.
 Proof. vm_compute. split; reflexivity. Qed.
 Example c03_smtwtp_selftest : check_C03_smtwtp (SMTWTP.ex_i, [2; 3; 1]%nat, -9) = 0.
